@@ -4,6 +4,8 @@ package nodeconf
 
 import (
 	"context"
+	"sync"
+	"time"
 	"encoding/hex"
 	"fmt"
 	"sort"
@@ -35,11 +37,24 @@ func (a *accComp) Init(*realapp.App) error            { return nil }
 func (a *accComp) Name() string                       { return accountservice.CName }
 func (a *accComp) Account() *accountdata.AccountKeys { return a.keys }
 
-type srcComp struct{}
+// srcComp: the configuration source; delivers `next` once (a newer configuration), then "not changed"
+type srcComp struct {
+	mu    sync.Mutex
+	next  *rnc.Configuration
+	calls int
+}
 
 func (s *srcComp) Init(*realapp.App) error { return nil }
 func (s *srcComp) Name() string            { return rnc.CNameSource }
-func (s *srcComp) GetLast(context.Context, string) (rnc.Configuration, error) {
+func (s *srcComp) GetLast(_ context.Context, currentId string) (rnc.Configuration, error) {
+	s.mu.Lock()
+	defer s.mu.Unlock()
+	s.calls++
+	if s.next != nil && s.next.Id != currentId {
+		c := *s.next
+		c.Nodes = append([]rnc.Node{}, c.Nodes...)
+		return c, nil
+	}
 	return rnc.Configuration{}, rnc.ErrConfigurationNotChanged
 }
 
@@ -69,28 +84,59 @@ func (v *verComp) IsNetworkNeedsUpdate(context.Context) (bool, error) {
 	return false, nil
 }
 
-// newParticipant builds a real nodeconf.Service for the account `self` over configuration c.
-func newParticipant(self string, c rnc.Configuration, viaStore bool) (svc rnc.Service, err error) {
+func cloneCfg(c rnc.Configuration) rnc.Configuration {
+	out := c
+	out.Nodes = make([]rnc.Node, len(c.Nodes))
+	for i, n := range c.Nodes {
+		out.Nodes[i] = rnc.Node{PeerId: n.PeerId, Addresses: append([]string{}, n.Addresses...), Types: append([]rnc.NodeType{}, n.Types...)}
+	}
+	return out
+}
+
+// newParticipant builds a real nodeconf.Service for the account `self` through service.Init:
+// appCfg is the configuration compiled into the application, stored (optional) the one persisted
+// by an earlier run, update (optional) a newer one the source delivers once the service runs.
+func newParticipant(self string, appCfg rnc.Configuration, stored, update *rnc.Configuration) (svc rnc.Service, closeFn func(), err error) {
 	defer func() {
 		if p := recover(); p != nil {
 			err = fmt.Errorf("panic: %v", p)
 		}
 	}()
+	closeFn = func() {}
 	a := new(realapp.App)
 	svc = rnc.New()
 	st := &storeComp{}
-	if viaStore {
-		cc := c
-		cc.Nodes = append([]rnc.Node{}, c.Nodes...)
+	if stored != nil {
+		cc := cloneCfg(*stored)
 		st.stored = &cc
 	}
-	a.Register(&cfgComp{c}).
-		Register(&accComp{&accountdata.AccountKeys{PeerId: self}}).
-		Register(&srcComp{}).Register(st).Register(&verComp{}).Register(svc)
-	if err = svc.Init(a); err != nil {
-		return nil, err
+	src := &srcComp{}
+	if update != nil {
+		cc := cloneCfg(*update)
+		src.next = &cc
 	}
-	return svc, nil
+	a.Register(&cfgComp{cloneCfg(appCfg)}).
+		Register(&accComp{&accountdata.AccountKeys{PeerId: self}}).
+		Register(src).Register(st).Register(&verComp{}).Register(svc)
+	if err = svc.Init(a); err != nil {
+		return nil, closeFn, err
+	}
+	if update != nil {
+		// the periodic sync calls the source immediately; wait (hang detection only) until the
+		// delivered configuration is the active one
+		if err = svc.Run(context.Background()); err != nil {
+			return nil, closeFn, err
+		}
+		closeFn = func() { svc.Close(context.Background()) }
+		deadline := time.Now().Add(20 * time.Second)
+		for svc.Configuration().Id != update.Id {
+			if time.Now().After(deadline) {
+				return svc, closeFn, fmt.Errorf("the configuration delivered by the source was not adopted")
+			}
+			time.Sleep(time.Millisecond)
+		}
+	}
+	return svc, closeFn, nil
 }
 
 // ---- generators ----------------------------------------------------------------------------
@@ -161,6 +207,64 @@ func genNodes(r *corr.Run, n, sync int) []rnc.Node {
 		nodes = append(nodes, rnc.Node{PeerId: id, Addresses: addrs, Types: types})
 	}
 	return permuted(r, nodes)
+}
+
+// splitEntries: some peers are listed once per role — several entries with the same peer id, the tree
+// type in exactly one of them (before or after the others); the entry order is shuffled by the caller
+func splitEntries(r *corr.Run, nodes []rnc.Node, pct int) []rnc.Node {
+	var out []rnc.Node
+	for _, n := range nodes {
+		if len(n.Types) < 2 || !r.Chance(pct) {
+			out = append(out, n)
+			continue
+		}
+		k := 2 + r.Intn(2)
+		parts := make([][]rnc.NodeType, k)
+		treePlaced := false
+		for _, t := range n.Types {
+			if t == rnc.NodeTypeTree {
+				if treePlaced {
+					continue // one tree entry per peer (chash does not detect duplicates inside one batch)
+				}
+				treePlaced = true
+			}
+			j := r.Intn(k)
+			parts[j] = append(parts[j], t)
+		}
+		for _, ts := range parts {
+			if len(ts) == 0 {
+				continue
+			}
+			addrs := append([]string{}, n.Addresses...)
+			if r.Chance(50) {
+				addrs = append(addrs, fmt.Sprintf("10.1.%d.%d:%d", r.Intn(256), r.Intn(256), 1000+r.Intn(9000)))
+			}
+			out = append(out, rnc.Node{PeerId: n.PeerId, Addresses: addrs, Types: ts})
+		}
+	}
+	return out
+}
+
+func hasType(n rnc.Node, t rnc.NodeType) bool {
+	for _, x := range n.Types {
+		if x == t {
+			return true
+		}
+	}
+	return false
+}
+
+// syncSet: the sync nodes of a configuration = peers that have the tree type in ANY entry
+func syncSet(nodes []rnc.Node) []string {
+	seen := map[string]bool{}
+	var out []string
+	for _, n := range nodes {
+		if hasTree(n) && !seen[n.PeerId] {
+			seen[n.PeerId] = true
+			out = append(out, n.PeerId)
+		}
+	}
+	return sorted(out)
 }
 
 func permuted(r *corr.Run, nodes []rnc.Node) []rnc.Node {
@@ -332,20 +436,31 @@ func wireCfg(in *interner, nodes []rnc.Node) string {
 type participant struct {
 	self  string
 	role  string // "sync" | "other" | "client"
+	path  string // which Init path built it
 	nodes []rnc.Node
 	svc   rnc.Service
 }
 
-func oneConfig(r *corr.Run, consts refConsts, n, sync int, nIds int) {
-	base := genNodes(r, n, sync)
-	in := &interner{m: map[string]int{}}
-	var syncIds []string
-	for _, nd := range base {
-		if hasTree(nd) {
-			syncIds = append(syncIds, nd.PeerId)
+var initPaths = []string{"fresh", "stored-equal", "stored-merge-node", "stored-merge-addr", "stored-newer", "updated"}
+
+func oneConfig(r *corr.Run, consts refConsts, n, sync int, nIds int, multiPct int) {
+	peers := genNodes(r, n, sync)
+	// the network needs a coordinator entry for the address-merge path of Init to have work to do
+	if len(peers) > 0 && r.Chance(70) {
+		k := r.Intn(len(peers))
+		if !hasType(peers[k], rnc.NodeTypeCoordinator) {
+			peers[k].Types = append(peers[k].Types, rnc.NodeTypeCoordinator)
+		}
+		if len(peers[k].Addresses) == 0 {
+			peers[k].Addresses = []string{"10.9.9.9:4000"}
 		}
 	}
-	syncIds = sorted(syncIds)
+	base := permuted(r, splitEntries(r, peers, multiPct))
+	if len(base) != len(peers) {
+		r.Count("cfg.multi-entry-peers")
+	}
+	in := &interner{m: map[string]int{}}
+	syncIds := syncSet(base)
 	cfgDesc := fmt.Sprintf("cfg n=%d sync=%d nodes=%s", n, len(syncIds), wireCfg(in, base))
 	violate := func(stream, desc string, ops ...string) {
 		r.Violate(prop, "", stream, desc, append([]string{cfgDesc}, ops...))
@@ -355,43 +470,120 @@ func oneConfig(r *corr.Run, consts refConsts, n, sync int, nIds int) {
 	if err != nil {
 		r.Fatal("reference ring: " + err.Error())
 	}
+	inBase := func(id string) bool {
+		for _, b := range base {
+			if b.PeerId == id {
+				return true
+			}
+		}
+		return false
+	}
+	// a stale configuration as an old application build would carry it: another id, a random subset of
+	// the current entries plus obsolete tree nodes; its coordinator entries are a subset of the current
+	// ones (so Init has nothing to merge)
+	staleCfg := func() rnc.Configuration {
+		var nodes []rnc.Node
+		for _, b := range base {
+			if r.Chance(60) {
+				nodes = append(nodes, b)
+			}
+		}
+		for _, e := range genNodes(r, 1+r.Intn(2), 1+r.Intn(2)) {
+			if !inBase(e.PeerId) {
+				var ts []rnc.NodeType
+				for _, t := range e.Types {
+					if t != rnc.NodeTypeCoordinator {
+						ts = append(ts, t)
+					}
+				}
+				e.Types = ts
+				nodes = append(nodes, e)
+			}
+		}
+		return rnc.Configuration{Id: "old-" + randStr(r, b36, 6), NetworkId: "net", Nodes: permuted(r, nodes)}
+	}
 
-	// participants: every node of the configuration and one client; each sees its own permutation of
-	// the node list; some views carry extra nodes WITHOUT the tree type (must change nothing)
+	// participants: every peer of the configuration and one client; each sees its own permutation of
+	// the entry list, some with extra entries WITHOUT the tree type, each through one of the Init paths
 	var parts []*participant
+	defer func() {
+		for _, p := range parts {
+			if c, ok := p.svc.(interface{ Close(context.Context) error }); ok && p.path == "updated" {
+				c.Close(context.Background())
+			}
+		}
+	}()
+	pathNo := r.Intn(len(initPaths))
 	mk := func(self, role string) {
 		nodes := permuted(r, base)
 		if r.Chance(30) {
-			extra := genNodes(r, 1+r.Intn(3), 0)
-			for _, e := range extra {
-				dup := false
-				for _, b := range base {
-					if b.PeerId == e.PeerId {
-						dup = true
-					}
-				}
-				if !dup && e.PeerId != self {
+			for _, e := range genNodes(r, 1+r.Intn(3), 0) {
+				if !inBase(e.PeerId) && e.PeerId != self {
 					nodes = append(nodes, e)
 				}
 			}
 			nodes = permuted(r, nodes)
 			r.Count("view.extra-nonsync-nodes")
 		}
-		c := rnc.Configuration{Id: "conf-" + randStr(r, b36, 6), NetworkId: "net", Nodes: nodes}
-		viaStore := r.Chance(25)
-		svc, err := newParticipant(self, c, viaStore)
+		cur := rnc.Configuration{Id: "conf-" + randStr(r, b36, 6), NetworkId: "net", Nodes: nodes}
+		path := initPaths[pathNo%len(initPaths)]
+		pathNo++
+		var svc rnc.Service
+		var err error
+		switch path {
+		case "fresh":
+			svc, _, err = newParticipant(self, cur, nil, nil)
+		case "stored-equal":
+			svc, _, err = newParticipant(self, cur, &cur, nil)
+		case "stored-merge-node":
+			// the application knows a coordinator the stored configuration does not list (tree-free entry)
+			app := staleCfg()
+			e := genNodes(r, 1, 0)[0]
+			for inBase(e.PeerId) || e.PeerId == self {
+				e = genNodes(r, 1, 0)[0]
+			}
+			e.Types = []rnc.NodeType{rnc.NodeTypeCoordinator}
+			e.Addresses = []string{"10.7.7.7:4100"}
+			app.Nodes = permuted(r, append(app.Nodes, e))
+			svc, _, err = newParticipant(self, app, &cur, nil)
+		case "stored-merge-addr":
+			// the application knows a further address of a coordinator listed in the stored configuration
+			app := cloneCfg(cur)
+			app.Id = "old-" + randStr(r, b36, 6)
+			done := false
+			for i := range app.Nodes {
+				if hasType(app.Nodes[i], rnc.NodeTypeCoordinator) {
+					app.Nodes[i].Addresses = append(app.Nodes[i].Addresses, "10.8.8.8:4200")
+					done = true
+					break
+				}
+			}
+			if !done {
+				path = "stored-equal"
+			}
+			svc, _, err = newParticipant(self, app, &cur, nil)
+		case "stored-newer":
+			svc, _, err = newParticipant(self, staleCfg(), &cur, nil)
+		case "updated":
+			svc, _, err = newParticipant(self, staleCfg(), nil, &cur)
+		}
 		if err != nil {
-			violate("nodeconf.build", fmt.Sprintf("participant %s (%s): building the node configuration failed: %v", role, self, err))
-			return
+			violate("nodeconf.build", fmt.Sprintf("participant %s (%s) via %s: %v", role, self, path, err))
+			if svc == nil {
+				return
+			}
 		}
-		if viaStore {
-			r.Count("view.via-stored-config")
-		}
-		parts = append(parts, &participant{self, role, nodes, svc})
+		r.Count("init." + path + "." + role)
+		parts = append(parts, &participant{self, role, path, svc.Configuration().Nodes, svc})
 	}
+	seenPeer := map[string]bool{}
 	for _, nd := range base {
+		if seenPeer[nd.PeerId] {
+			continue
+		}
+		seenPeer[nd.PeerId] = true
 		role := "other"
-		if hasTree(nd) {
+		if contains(syncIds, nd.PeerId) {
 			role = "sync"
 		}
 		mk(nd.PeerId, role)
@@ -428,7 +620,7 @@ func oneConfig(r *corr.Run, consts refConsts, n, sync int, nIds int) {
 		impl := in.csvSortedInts(ul)
 		r.Check(prop, "nodeconf.sync", []string{op}, r.Ask(op), impl)
 		if !eq(ul, syncIds) {
-			violate("nodeconf.ring-members.oracle", fmt.Sprintf("participant %s: nodes on its ring %v, sync nodes of the configuration %v", p.role, ul, syncIds), op)
+			violate("nodeconf.ring-members.oracle", fmt.Sprintf("participant %s via %s: nodes on its ring %v, sync nodes of the configuration (peers with the tree type in any entry) %v", p.role, p.path, ul, syncIds), op)
 		}
 		if ch.PartitionCount() != consts.partitionCount {
 			violate("nodeconf.ring-params.oracle", fmt.Sprintf("ring has %d partitions, service.go declares %d", ch.PartitionCount(), consts.partitionCount))
@@ -481,7 +673,7 @@ func oneConfig(r *corr.Run, consts refConsts, n, sync int, nIds int) {
 				isResp = p.svc.IsResponsible(id)
 				part = p.svc.Partition(id)
 			}()
-			who := fmt.Sprintf("participant %s(%d)", p.role, in.id(p.self))
+			who := fmt.Sprintf("participant %s(%d) via %s", p.role, in.id(p.self), p.path)
 
 			// --- direct oracle -------------------------------------------------------------
 			set := append([]string{}, nodeIds...)
@@ -593,12 +785,12 @@ func Run(r *corr.Run) {
 	for sync := 0; sync <= 5 && r.TimeLeft(); sync++ {
 		for _, n := range []int{sync, sync + 1, sync + 3} {
 			if n >= 1 && n <= 12 {
-				oneConfig(r, consts, n, sync, nIds)
+				oneConfig(r, consts, n, sync, nIds, 35)
 			}
 		}
 	}
 	for k := 0; k < r.Pick(80, 1500) && r.TimeLeft(); k++ {
 		n := 1 + r.Intn(12)
-		oneConfig(r, consts, n, r.Intn(n+1), nIds)
+		oneConfig(r, consts, n, r.Intn(n+1), nIds, []int{0, 30, 80}[r.Intn(3)])
 	}
 }
